@@ -224,4 +224,55 @@ func genC16(cs *CaseSet, rng *Rng, tier string, dir string) {
 		cs.Add(Case{Kind: "wire-login", Ops: []Op{mkOp(3, "login-user-access", exp[:])},
 			Obs: [][][]byte{{field, auth[:]}}, NonTrivial: popcount(exp) >= 1})
 	}
+
+	// an account of the RUNNING server is given other privileges (what SetUser does): the bitmap the server then
+	// decides with, and the one a restart reads back, are the new one - no privilege of the old one survives
+	nU := 60
+	if tier == "thorough" {
+		nU = 600
+	}
+	for k := 0; k < nU; k++ {
+		var a, b hotline.AccessBitmap
+		switch k % 4 {
+		case 0:
+			copy(a[:], rng.Bytes(8))
+			copy(b[:], rng.Bytes(8))
+		case 1: // one privilege taken away
+			copy(a[:], rng.Bytes(8))
+			b = a
+			p := rng.Intn(41)
+			a.Set(p)
+			b[p/8] &^= 1 << (7 - p%8)
+		case 2: // everything taken away but one
+			a = hotline.AccessBitmap{255, 255, 255, 255, 255, 255, 255, 255}
+			b.Set(rng.Intn(41))
+		default: // one privilege added
+			copy(a[:], rng.Bytes(8))
+			b = a
+			b.Set(rng.Intn(41))
+		}
+		login := fmt.Sprintf("upd%d", k)
+		// a directory of its own (with a guest account, without which it would not load): loading the thousands of
+		// accounts above once per case would dominate the run time
+		ud := filepath.Join(env.Dir, "upd-users", login)
+		must(os.MkdirAll(ud, 0755))
+		writeAccountFile(ud, *hotline.NewAccount("guest", "Guest User", "", hotline.AccessBitmap{}))
+		am, err := mobius.NewYAMLAccountManager(ud + "/")
+		must(err)
+		must(am.Create(hotline.Account{Login: login, Name: login, Password: hotline.HashAndSalt([]byte("")), Access: a}))
+		acc := am.Get(login)
+		acc.Access = b
+		must(am.Update(*acc, login))
+		var mem, disk []byte
+		if x := am.Get(login); x != nil {
+			mem = append([]byte{}, x.Access[:]...)
+		}
+		if fresh, err := mobius.NewYAMLAccountManager(ud + "/"); err == nil {
+			if x := fresh.Get(login); x != nil {
+				disk = append([]byte{}, x.Access[:]...)
+			}
+		}
+		cs.Add(Case{Kind: "update-running", Ops: []Op{mkOp(4, "update-running-account", a[:], b[:])},
+			Obs: [][][]byte{{mem, disk}}, NonTrivial: a != b && popcount(a) >= 1})
+	}
 }
